@@ -197,6 +197,26 @@ impl<'a> Gen<'a> {
     }
 
     fn rw_op_on(&mut self, f: FdRef, size_hint: usize) -> Op {
+        let mut op = self.rw_op_raw(f.clone(), size_hint);
+        // zero-length transfers on something that is not a regular file: whether the type check (EISDIR ...) or the
+        // zero-length shortcut comes first differs between the system call and the io_uring path (kernel matter)
+        let regular = match &f {
+            FdRef::T(t) => self.w.fds[*t].kind == FdKind::File,
+            _ => true,
+        };
+        if !regular && op.rw_len() == Some(0) {
+            match &mut op {
+                Op::Readv { lens, .. } => lens[0] = 7,
+                Op::Writev { chunks, .. } => chunks[0] = vec![1, 2, 3],
+                Op::ReadFixed { len, .. } => *len = 7,
+                Op::WriteFixed { data, .. } => *data = vec![1, 2, 3],
+                _ => {}
+            }
+        }
+        op
+    }
+
+    fn rw_op_raw(&mut self, f: FdRef, size_hint: usize) -> Op {
         match self.r.below(4) {
             0 => {
                 let n = self.r.range(1, 3) as usize;
@@ -215,7 +235,7 @@ impl<'a> Gen<'a> {
             }
             2 => {
                 let len = if self.r.chance(1, 3) { size_hint.min(2048) } else { self.r.below(2048) as usize };
-                match self.alloc_region(len) {
+                match self.alloc_region(len.max(8)) {
                     Some((buf, off)) => Op::ReadFixed { f, buf, off, len },
                     None => Op::Readv { f, lens: vec![len] },
                 }
@@ -223,7 +243,7 @@ impl<'a> Gen<'a> {
             _ => {
                 let l = self.r.below(2048) as usize;
                 let data = self.r.bytes(l);
-                match self.alloc_region(data.len()) {
+                match self.alloc_region(data.len().max(8)) {
                     Some((buf, off)) => Op::WriteFixed { f, buf, off, data },
                     None => Op::Writev { f, chunks: vec![data] },
                 }
